@@ -233,10 +233,10 @@ GLOBL GCM_POLY<>(SB), (NOPTR+RODATA), $16
 
 // **************    functions related with  cryptoBlockAsm   ***************
 #define loadRoundKeyNew(R, RK, reg1, reg2, reg3, reg4) \
-    MOVD    (R),   reg1 \
-    MOVD    4(R),  reg2 \
-    MOVD    8(R),  reg3 \
-    MOVD    12(R), reg4 \
+    MOVL    (R),   reg1 \
+    MOVL    4(R),  reg2 \
+    MOVL    8(R),  reg3 \
+    MOVL    12(R), reg4 \
 
 #define loadRoundKeyXNew(R, reg1, reg2, reg3, reg4) \
     loadRoundKeyNew(R, VxRoundKey, reg1, reg2, reg3, reg4) \
